@@ -331,6 +331,10 @@ func workerMain(t *testing.T) {
 			}
 			continue
 		}
+		if len(vs) > 0 {
+			// how often, not only whether: a change caught by a single run out of a batch is a weak catch
+			res.Stats["violating-runs"]++
+		}
 		if len(vs) > 0 && len(res.Violations) < 40 {
 			// one replay per distinct rule+facts in this chunk
 			seen := map[string]bool{}
